@@ -34,7 +34,9 @@ EXTENDS Naturals, Sequences, FiniteSets, TLC, Json, IOUtils
 
 Facts == JsonDeserialize(IOEnv.TRAITS)
 
-Locks == {"pl", "noop"}
+\* lock witnesses: parking_lot (Send + Sync), the no-op lock (neither), and two exotic but legal
+\* `RawMutex` types: one that is Send but not Sync, one that is Sync but not Send
+Locks == {"pl", "noop", "lsend", "lsync"}
 Payloads == {"sendsync", "sendonly", "synconly", "none"}
 ClonePayloads == {"sendsync", "synconly", "none"}
 Buffers == {"array", "notsend"}
@@ -137,6 +139,11 @@ Families == {
             \cup Through("StateSender", "ref", {"payload"}) \cup Through("StateReceiver", "ref", {"payload"})]
 }
 
+\* Every value of a reference-counted family (handles, and the futures / releasers that embed a handle)
+\* may be the last owner: dropping it destroys the lock (and payload, buffer) on the dropping thread.
+ArcFamilies == {"shared_semaphore", "shared_channel", "shared_oneshot", "shared_oneshot_broadcast", "shared_state_broadcast"}
+Caps(f) == f.caps \cup (IF f.name \in ArcFamilies THEN {C(x.k, "own", "lock", "excl") : x \in f.kinds} ELSE {})
+
 Combos(f) ==
   CASE f.params = "L" -> {[l |-> l, p |-> "sendsync", b |-> "array"] : l \in Locks}
     [] f.params = "LP" -> {[l |-> l, p |-> p, b |-> "array"] : l \in Locks, p \in Payloads}
@@ -160,7 +167,7 @@ ResSync(r, c) == CASE r = "lock" -> Facts["Lock|" \o c.l].sync
                    [] r = "payload" -> Facts["Payload|" \o c.p].sync
                    [] r = "buffer" -> Facts["Buffer|" \o c.b \o "|sendsync"].sync
 \* resources the family actually has
-HasRes(f, r) == \E x \in f.caps : x.r = r
+HasRes(f, r) == \E x \in Caps(f) : x.r = r
 
 VARIABLES fam, combo, tokens, hist
 vars == <<fam, combo, tokens, hist>>
@@ -197,6 +204,14 @@ Api(e, tok) ==
   /\ Tok(tok.t, e.gives, "own") \notin tokens
   /\ tokens' = tokens \cup {Tok(tok.t, e.gives, "own")}
   /\ hist' = Append(hist, <<"api", e.from, e.gives, tok.t>>)
+\* a handle is cloned and the clone is sent away (the token set cannot hold two equal tokens on one
+\* thread, so cloning and moving the clone is one step): needs the handle type to be Send
+CloneMove(e, tok) ==
+  /\ e.from = tok.k /\ e.how = tok.m /\ e.gives = e.from
+  /\ Fact(fam, tok.k, combo).send
+  /\ Tok(Other(tok.t), e.gives, "own") \notin tokens
+  /\ tokens' = tokens \cup {Tok(Other(tok.t), e.gives, "own")}
+  /\ hist' = Append(hist, <<"clone_and_move", e.from, tok.t, Other(tok.t)>>)
 DropTok(tok) ==
   /\ KindRec(fam, tok.k).root = "-" \/ tok.m = "ref"
   /\ tok.m = "own" => ~\E r \in tokens : r.k = tok.k /\ r.m = "ref"
@@ -205,24 +220,24 @@ DropTok(tok) ==
 
 Next == /\ UNCHANGED <<fam, combo>>
         /\ \E tok \in tokens : \/ Move(tok) \/ Share(tok) \/ Borrow(tok) \/ DropTok(tok)
-                               \/ \E e \in fam.edges : Api(e, tok)
+                               \/ \E e \in fam.edges : Api(e, tok) \/ CloneMove(e, tok)
 Spec == Init /\ [][Next]_vars
 
 (* ----- what makes a state a bug ---------------------------------------- *)
-CapsOf(tok) == {x \in fam.caps : x.k = tok.k /\ x.m = tok.m}
+CapsOf(tok) == {x \in Caps(fam) : x.k = tok.k /\ x.m = tok.m}
 \* an owned primitive cannot be touched while it is borrowed
 Dormant(tok) == KindRec(fam, tok.k).root = "prim" /\ tok.m = "own" /\ tokens # {tok}
 
 SendViol ==
   {<<"send", p[1].k, p[2].r>> :
-     p \in {<<t, z>> \in tokens \X fam.caps :
+     p \in {<<t, z>> \in tokens \X Caps(fam) :
               t.t = 2 /\ ~Dormant(t) /\ z.k = t.k /\ z.m = t.m /\ z.lvl = "excl" /\ ~ResSend(z.r, combo)}}
 SyncViol ==
   {<<"sync", p[1].k, p[2].r>> :
-     p \in {<<a, z>> \in tokens \X fam.caps :
+     p \in {<<a, z>> \in tokens \X Caps(fam) :
               a.t = 2 /\ z.k = a.k /\ z.m = a.m /\ z.lvl = "shared" /\ ~ResSync(z.r, combo) /\
               \E b \in tokens : b.t = 1 /\ ~Dormant(b) /\
-                 \E w \in fam.caps : w.k = b.k /\ w.m = b.m /\ w.r = z.r /\ w.lvl = "shared"}}
+                 \E w \in Caps(fam) : w.k = b.k /\ w.m = b.m /\ w.r = z.r /\ w.lvl = "shared"}}
 Violations == SendViol \cup SyncViol
 
 \* pruned exploration: report a violating state once, do not explore beyond it
